@@ -39,6 +39,8 @@ def t_own_steps(chk, ix):
 
 
 def t_status(chk, ix):
+    from .. import rules_generic
+    rules_generic.check_iterator_truth(chk, ix)
     # row scenarios are built once and keep their state (status, skip marks): build_scenarios clears every table's modified mark
     from .. import rules_outline
     rules_outline.check_build_order(chk, ix)
